@@ -423,11 +423,11 @@ def obligations(tier, seed):
     quick = tier == "quick"
     # datetimes in another fixed offset (the header carries the same instant in GMT), and dates
     # through IfRange(date=...).to_header() -> parse_if_range_header
-    for month, offset in ([(2, "+0530"), (12, "-1100"), (1, "+1400"), (3, "custom-zero")] if quick else
+    for month, offset in ([(1, "+1400"), (3, "custom-zero")] if quick else
                           [(mo, of) for mo in (1, 2, 3, 6, 12) for of in ("+0530", "-1100", "+1400", "-0001", "+0000", "-2359", "custom-zero")]):
         out.append({"name": f"http_date[offset={offset},month={month}]", "body": "body_http_date", "params": {"aware": True, "month": month, "offset": offset},
                     "opts": {"budget_s": 900, "ctx": {"bv_ints": True, "max_digits": 6}}})
-    for month, offset in ([(2, None), (12, "+0130")] if quick else [(mo, of) for mo in (1, 2, 7, 12) for of in (None, "+0130", "-0800")]):
+    for month, offset in ([(2, None)] if quick else [(mo, of) for mo in (1, 2, 7, 12) for of in (None, "+0130", "-0800")]):
         out.append({"name": f"if_range_date[offset={offset},month={month}]", "body": "body_http_date",
                     "params": {"aware": True, "month": month, "offset": offset, "via": "if_range"},
                     "opts": {"budget_s": 900, "ctx": {"bv_ints": True, "max_digits": 6}}})
